@@ -412,15 +412,15 @@ type replayFile struct {
 func (r *Run) Finish() int {
 	if r.Replaying() {
 		if !r.replayRan {
-			fmt.Printf("replay: scope %q of %s was not executed (unknown scope)\n", r.replayScope, r.ID)
+			fmt.Fprintf(Out, "replay: scope %q of %s was not executed (unknown scope)\n", r.replayScope, r.ID)
 			return 2
 		}
 		if len(r.replayFails) == 0 {
-			fmt.Printf("replay: property %s holds on this case\n", r.ID)
+			fmt.Fprintf(Out, "replay: property %s holds on this case\n", r.ID)
 			return 0
 		}
 		for _, f := range r.replayFails {
-			fmt.Printf("replay: property=%s class=%q known=%q\n%s\n", r.ID, f.Class, f.Known, f.Detail)
+			fmt.Fprintf(Out, "replay: property=%s class=%q known=%q\n%s\n", r.ID, f.Class, f.Known, f.Detail)
 		}
 		return 1
 	}
@@ -479,11 +479,11 @@ func (r *Run) Finish() int {
 		}
 		b, _ := json.MarshalIndent(rf, "", " ")
 		os.WriteFile(path, b, 0o644)
-		fmt.Printf("VIOLATION property=%s replay=%s\n", r.ID, path)
-		fmt.Printf("  class: %s\n  scope: %s  occurrences: %d  reproduced on re-run: %s\n  %s\n", v.Class, v.Scope, v.Count, v.Repro, indent(firstN(v.Detail, 1500)))
+		fmt.Fprintf(Out, "VIOLATION property=%s replay=%s\n", r.ID, path)
+		fmt.Fprintf(Out, "  class: %s\n  scope: %s  occurrences: %d  reproduced on re-run: %s\n  %s\n", v.Class, v.Scope, v.Count, v.Repro, indent(firstN(v.Detail, 1500)))
 	}
 	if nviol > maxReported {
-		fmt.Printf("(%d further violation classes not written out)\n", nviol-maxReported)
+		fmt.Fprintf(Out, "(%d further violation classes not written out)\n", nviol-maxReported)
 	}
 	var kids []string
 	for id := range reproduced {
@@ -491,7 +491,7 @@ func (r *Run) Finish() int {
 	}
 	sort.Strings(kids)
 	for _, id := range kids {
-		fmt.Printf("KNOWN-FINDING: property=%s %s [%s, %d cases]\n", r.ID, known[id].What, id, reproduced[id])
+		fmt.Fprintf(Out, "KNOWN-FINDING: property=%s %s [%s, %d cases]\n", r.ID, known[id].What, id, reproduced[id])
 	}
 	var stale []string
 	for id, kf := range known {
@@ -561,11 +561,11 @@ func (r *Run) Finish() int {
 		fmt.Fprintln(os.Stderr, "cannot write evidence:", err)
 		return 2
 	}
-	fmt.Printf("%s %s: executions=%d distinct_outcomes=%d distinct_nontrivial=%d states=%d transitions=%d exhaustive=%v violations=%d known_findings=%d wall=%.1fs\n",
+	fmt.Fprintf(Out, "%s %s: executions=%d distinct_outcomes=%d distinct_nontrivial=%d states=%d transitions=%d exhaustive=%v violations=%d known_findings=%d wall=%.1fs\n",
 		r.ID, r.Tier, r.evals, len(r.outcomes), len(r.nontriv), r.states, r.trans, exhaustive, nviol, len(reproduced), time.Since(r.Start).Seconds())
 	if len(r.harnessErr) > 0 {
 		for _, e := range r.harnessErr {
-			fmt.Println("HARNESS-ERROR:", e)
+			fmt.Fprintln(Out, "HARNESS-ERROR:", e)
 		}
 		if nviol == 0 {
 			return 2
